@@ -89,8 +89,14 @@ def handlers():
     def get_table_number(ki, e, st):
         return GExpr.of(Poly.sym("table_number", U(e.args[-1])))
 
+    def get_std_type_lookup(ki, e, st):
+        # the array of std-type names of a table: an opaque per-net value (how the names are listed is not the kernels' business)
+        tn = ki.eval(e.args[1], st) if len(e.args) > 1 else None
+        return GExpr.of(Poly.sym("std_type_lookup", tn.v if isinstance(tn, PyVal) else U(e.args[1]) if len(e.args) > 1 else "?"))
+
     return {"get_fluid": get_fluid, "get_from_nodes_corrected": gfc, "get_to_nodes_corrected": gtc,
-            "get_net_option": opt, "get_lookup": get_lookup, "get_table_number": get_table_number}
+            "get_net_option": opt, "get_lookup": get_lookup, "get_table_number": get_table_number,
+            "get_std_type_lookup": get_std_type_lookup}
 
 
 def options_val(friction_model="nikuradse", use_numba=False):
